@@ -462,6 +462,7 @@ def verify_unit(unit, tier, workdir):
 
     # classify errors
     per_fn = {}
+    sync_fn = {}
     other_verif = []
     hard = []
     for d in errors:
@@ -480,7 +481,18 @@ def verify_unit(unit, tier, workdir):
             continue
         if efs:
             # attribute to the function in which the failing *body* lies: prefer a span inside a body
-            per_fn.setdefault(efs[0].label, []).append((msg, d.get("rendered", "")))
+            # a postcondition clause marked /*sync*/ ties a code-derived functional model to the body; when only such
+            # clauses fail, the model is out of date (proofs built on it no longer apply): undecided, not a violation
+            is_sync = False
+            if "postcondition not satisfied" in msg:
+                for sp in d.get("spans", []):
+                    if "failed this postcondition" in (sp.get("label") or ""):
+                        if "/*sync*/" in " ".join(t.get("text", "") for t in sp.get("text", [])):
+                            is_sync = True
+            if is_sync:
+                sync_fn.setdefault(efs[0].label, []).append((msg, d.get("rendered", "")))
+            else:
+                per_fn.setdefault(efs[0].label, []).append((msg, d.get("rendered", "")))
         else:
             other_verif.append((msg, d.get("rendered", "")))
     if vr.get("encountered-vir-error") or (hard and not bd):
@@ -509,6 +521,11 @@ def verify_unit(unit, tier, workdir):
             res.obligations.append(Obligation(
                 name, ef.label, "failed", "; ".join(kinds),
                 "\n".join(r for _, r in per_fn[ef.label])[:6000], ef.text))
+        elif ef.label in sync_fn:
+            res.obligations.append(Obligation(
+                name, ef.label, "undecided", "",
+                "only the /*sync*/ clause (code-derived functional model) fails: the model no longer describes the body; "
+                "property-level clauses of this function still hold\n" + "\n".join(r for _, r in sync_fn[ef.label])[:3000]))
         else:
             b = bd_for(ef.out_name)
             if b and not all(x.get("success") for x in b):
